@@ -52,13 +52,16 @@ def _insert_loop_specs(fn_text, loops, log, where):
     # process from the last loop to the first so positions stay valid
     for ordinal in sorted(loops.keys(), reverse=True):
         if ordinal > len(found):
-            raise Unsupported("%s: loop #%d not found (function has %d loops) -- anchor lost"
-                              % (where, ordinal, len(found)))
+            log.append({"rule": "A0", "site": where, "pattern": "loop #%d not found (function has %d loops)" % (ordinal, len(found)),
+                        "replacement": "(loop invariant skipped)", "count": 0, "anchor_lost": True})
+            continue
         kw, kw_pos, open_pos, close_pos = found[ordinal - 1]
         spec = loops[ordinal]
         if "expect_kw" in spec and spec["expect_kw"] != kw:
-            raise Unsupported("%s: loop #%d is `%s`, contract expects `%s` -- anchor lost"
-                              % (where, ordinal, kw, spec["expect_kw"]))
+            # the loop changed kind: its invariant cannot be placed (rule A0); verify without it
+            log.append({"rule": "A0", "site": where, "pattern": "loop #%d is `%s`, contract expects `%s`" % (ordinal, kw, spec["expect_kw"]),
+                        "replacement": "(loop invariant skipped)", "count": 0, "anchor_lost": True})
+            continue
         text = fn_text
         if spec.get("body_end"):
             text = text[:close_pos] + "\n" + spec["body_end"] + "\n" + text[close_pos:]
@@ -159,7 +162,7 @@ def _extract_impl(src, imp, it, log, where):
         # keep associated types / consts between methods (strip attributes and comments)
         keep = "\n".join(l for l in rsitems.strip_attrs_and_docs(between).split("\n")
                          if l.strip() and not l.strip().startswith("//"))
-        if keep.strip():
+        if keep.strip() and not it.get("drop_assoc_items"):
             out.append(keep)
         if name in methods:
             seen.add(name)
